@@ -315,7 +315,7 @@ func genC19(tier string, seed uint64, n int, e *Emitter) {
 			if toc {
 				e.Emit(Case{Group: "cycle-search", Desc: map[string]interface{}{"family": fam.name, "n": sz, "document": c19Clip(text), "counters": cc},
 					Tags: tags, Fail: "watchdog: NoFragmentCycles did not finish within 20 s on a document of " + fmt.Sprint(len(text)) + " bytes"})
-				break
+				return // the abandoned run keeps incrementing the global counters: nothing measured after it is reliable
 			}
 			if failc == "" && !resc.IsValid {
 				failc = "family member rejected by NoFragmentCycles"
@@ -329,7 +329,7 @@ func genC19(tier string, seed uint64, n int, e *Emitter) {
 			if tov {
 				e.Emit(Case{Group: "validate", Desc: map[string]interface{}{"family": fam.name, "n": sz, "document": c19Clip(text), "counters": cv},
 					Tags: tags, Fail: "watchdog: the overlap rule did not finish within 20 s on a document of " + fmt.Sprint(len(text)) + " bytes"})
-				break
+				return
 			}
 			for i := range cv {
 				if i == 7 {
@@ -357,7 +357,7 @@ func genC19(tier string, seed uint64, n int, e *Emitter) {
 			if top {
 				e.Emit(Case{Group: "plan", Desc: map[string]interface{}{"family": fam.name, "n": sz, "document": c19Clip(text), "counters": cp},
 					Tags: tags, Fail: "watchdog: PlanQuery did not finish within 20 s on a document of " + fmt.Sprint(len(text)) + " bytes"})
-				break
+				return
 			}
 			if fail == "" && perr != nil {
 				fail = "PlanQuery: " + perr.Error()
